@@ -9,8 +9,8 @@ from .. import core, lexer, tlc
 from ..core import log
 
 PID = "C13"
-REAL = {"A": "alpha", "B": "beta", "C": "gamma", "dsf": "diff-so-fancy", "dh": "diff-highlight"}
-VAL = {"cli": "21", "gcp": "22", "main": "23", "c_A": "24", "c_B": "25", "c_C": "26", "c_dsf": "27"}
+REAL = {"A": "alpha", "B": "beta", "C": "gamma", "dsf": "diff-so-fancy", "dh": "diff-highlight", "nav": "navigate"}
+VAL = {"cli": "21", "gcp": "22", "main": "23", "c_A": "24", "c_B": "25", "c_C": "26", "c_dsf": "27", "c_nav": "28"}
 
 
 def concretise(p, workdir, idx):
@@ -22,7 +22,7 @@ def concretise(p, workdir, idx):
         cfg.append("    features = " + " ".join(REAL[f] for f in p["mainF"]))
     for f in p["flagsMain"]:
         cfg.append(f"    {REAL[f]} = true")
-    for f in ("A", "B", "C", "dsf"):
+    for f in ("A", "B", "C", "dsf", "nav"):
         sec = []
         if f in p["custom"]:
             sec.append(f"    minus-style = {VAL['c_' + f]}")
@@ -33,7 +33,8 @@ def concretise(p, workdir, idx):
     path = os.path.join(workdir, f"cfg{idx}.gitconfig")
     with open(path, "w") as fh:
         fh.write("\n".join(cfg) + "\n")
-    argv = ["--no-gitconfig"] if p["noGit"] else ["--config", path]
+    # --no-gitconfig: with and without a --config FILE next to it (nothing in FILE may count)
+    argv = (["--no-gitconfig"] + (["--config", path] if p.get("cfgFile") else [])) if p["noGit"] else ["--config", path]
     env = {}
     if p["cli"]:
         argv += ["--minus-style", VAL["cli"]]
@@ -75,6 +76,17 @@ def run(tier):
     # always include the placements in which two builtin flags compete in gitconfig (determinism)
     two = [p for p in placements if len(p["flagsMain"]) == 2 and not p["cli"] and not p["main"] and not p["noGit"]]
     sel += rnd.sample(two, min(len(two), 300))
+    # strata that a uniform sample would hardly meet: a feature listed twice, a custom section named like a builtin
+    # feature that does not set the option itself, --no-gitconfig with gitconfig sources set
+    dup = lambda s_: len(set(s_)) < len(s_)
+    strata = [
+        [p for p in placements if (dup(p["cliF"]) or dup(p["mainF"])) and not p["noGit"]],
+        [p for p in placements if "nav" in p["custom"]],
+        [p for p in placements if p["noGit"] and (p["gcp"] or p["main"] or p["custom"])],
+    ]
+    for st in strata:
+        sel += rnd.sample(st, min(len(st), 600 if tier == "quick" else 6000))
+    sel = [dict(p, cfgFile=bool(p["noGit"] and i % 2 == 0)) for i, p in enumerate(sel)]
     work = os.path.join(core.scratch(), "c13")
     os.makedirs(work, exist_ok=True)
     # calibration of the strings --show-config prints for each source (mechanical)
